@@ -948,6 +948,35 @@ func (b *Base) refine0(x *Exec, cond ast.Expr, truth bool, s St) []St {
 			}
 			return b.setAtom(s, "p:"+key+"("+strings.Join(ts, ",")+")", truth)
 		}
+		// a boolean helper of the module that the rule wants interpreted in context: its body is
+		// explored and the exits whose result contradicts the branch are dropped
+		if b.AutoInline != nil && x.Depth < 3 && x.RetCall == nil {
+			if f := Callee(info, c); f != nil {
+				if fi := x.Fn.P.FuncOf(f); fi != nil && fi.Decl.Body != nil && b.autoInline(x, fi) {
+					if sig, ok := f.Type().(*types.Signature); ok && sig.Results().Len() == 1 && isBoolType(sig.Results().At(0).Type()) {
+						callee := x.Fn.P.FlowOf(fi)
+						for y := x; y != nil; y = y.Parent {
+							if y.Fn == callee {
+								return []St{s}
+							}
+						}
+						tmp := fmt.Sprintf("$cond@%d", int(c.Pos()))
+						x.RetCall = []string{tmp}
+						outs := b.InlineCall(x, c, fi, nil, s)
+						x.RetCall = nil
+						var keep []St
+						for _, o := range outs {
+							v := o.Get("b:" + tmp)
+							if v != "" && (v == "true") != truth {
+								continue
+							}
+							keep = append(keep, o.Set("b:"+tmp, ""))
+						}
+						return keep
+					}
+				}
+			}
+		}
 	}
 	return []St{s}
 }
